@@ -135,8 +135,42 @@ def run_case(c):
     return res
 
 
+def run_long(c):
+    """a very long stream (several million samples) handed over in ONE call, against the same stream in two calls and against the definition at
+    a few spectra: implementation only (the exact model is not evaluated at this size)"""
+    import setigen.voltage as V
+    taps, nb, W = c["taps"], c["nb"], c["windows"]
+    win = taps * nb
+    rng = np.random.default_rng(c["seed"])
+    x = rng.integers(-99, 100, size=W * win).astype(float)
+    one = V.PolyphaseFilterbank(num_taps=taps, num_branches=nb, window_fn=c.get("window_fn", "hamming"))
+    two = V.PolyphaseFilterbank(num_taps=taps, num_branches=nb, window_fn=c.get("window_fn", "hamming"))
+    a = np.asarray(one.channelize(x, cache=True))
+    cut = (W // 2) * win
+    b = np.concatenate([np.asarray(two.channelize(x[:cut], cache=True)), np.asarray(two.channelize(x[cut:], cache=True))])
+    fails = []
+    want_n = (W - 1) * taps
+    if a.shape[0] != want_n or b.shape[0] != want_n:
+        fails.append(["spectra-count", "%d windows of %d taps x %d branches (%d samples) in one call give %d spectra, in two calls %d; every hop of the stream but the last window's gives %d"
+                      % (W, taps, nb, len(x), a.shape[0], b.shape[0], want_n)])
+    elif not np.array_equal(a, b):
+        bad = np.nonzero(np.any(a != b, axis=1))[0]
+        fails.append(["chunking", "one call of %d samples and the same stream in two calls differ from spectrum %d on (%d spectra differ)" % (len(x), int(bad[0]), len(bad))])
+    if not fails:
+        h = np.asarray(one.window, dtype=float)
+        for n in [0, 1, want_n // 2, want_n // 2 + 1, want_n - 1] + [int(v) for v in rng.integers(0, want_n, 6)]:
+            seg = x[n * nb:n * nb + win] * h
+            ref = np.fft.fft(seg.reshape(taps, nb).sum(axis=0))[:nb // 2] / nb ** 0.5
+            if not np.allclose(a[n], ref, rtol=1e-9, atol=1e-9 * max(1.0, float(np.max(np.abs(ref))))):
+                fails.append(["definition", "spectrum %d of the long one-call stream is not the windowed, branch-summed DFT of the samples from %d on" % (n, n * nb)]); break
+    return dict(fails=fails)
+
+
 def main():
     payload = json.load(sys.stdin)
+    if payload.get("mode") == "long":
+        json.dump([run_long(c) for c in payload["cases"]], open(sys.argv[1], "w"))
+        return
     json.dump([run_case(c) for c in payload["cases"]], open(sys.argv[1], "w"))
 
 
